@@ -89,3 +89,12 @@ char nondet_char(void); _Bool nondet_bool(void); unsigned long nondet_ulong(void
 #undef tolower
 #undef isupper
 #undef islower
+
+/* open(2) is variadic: fixed-arity model (same DFCC reason as snprintf) */
+#include <fcntl.h>
+int verif_open3(const char *path, int flags, unsigned mode);
+#define VERIF_SEL3(_0,_1,_2,NAME,...) NAME
+#define VERIF_OP2(p,f)   verif_open3(p,f,0)
+#define VERIF_OP3(p,f,m) verif_open3(p,f,(unsigned)(m))
+#undef open
+#define open(p,...) VERIF_SEL3(p,__VA_ARGS__,VERIF_OP3,VERIF_OP2)(p,__VA_ARGS__)
